@@ -169,6 +169,70 @@ def intersect_stream(ctx, n):
                 ctx.disagree(f"C14:intersect:generic:{dim}d", desc, "1-2 points lying on the quadric and on the line", [np.round(x, 6).tolist() for x in pts], replay=[desc])
 
 
+def complex_symmetric_stream(ctx, n):
+    """regular conics with a complex SYMMETRIC (not Hermitian) matrix: the intersection with a line consists of points on both"""
+    import geometer as g
+    rng = ctx.rng
+    for k in range(n):
+        A = np.array([[complex(rng.randint(-2, 2), 0) for _ in range(3)] for _ in range(3)])
+        A = A + A.T
+        i, j = rng.sample(range(3), 2)
+        A[i, j] += 1j * rng.choice([1, -1, 2]); A[j, i] = A[i, j]
+        if abs(np.linalg.det(A)) < 0.5:
+            continue
+        l = np.array([float(rng.randint(-2, 2)), float(rng.randint(-2, 2)), float(rng.randint(-3, 3))])
+        if not l[:2].any():
+            continue
+        desc = f"complex symmetric conic {A.tolist()} line {l.tolist()}"
+        ctx.case(desc)
+        ctx.count("complex-symmetric-conic")
+        r = call_impl(lambda: (bool(g.Conic(A).is_degenerate), g.Conic(A).intersect(g.Line(l))))
+        if r[0] != "ok":
+            ctx.disagree("C14:complex-symmetric:error", desc, "the common points", r[1:3], replay=[desc])
+            continue
+        pts = [np.asarray(p.array) for p in r[1][1]]
+        res = [max(abs(p @ A @ p) / (np.linalg.norm(p) ** 2 * np.linalg.norm(A)), abs(l @ p) / (np.linalg.norm(l) * np.linalg.norm(p))) for p in pts]
+        if r[1][0] or not pts or len(pts) > 2 or max(res) > 1e-7:
+            ctx.disagree("C14:complex-symmetric", desc, "not degenerate; 1-2 points on the conic and on the line",
+                         {"is_degenerate": r[1][0], "points": [np.round(p, 6).tolist() for p in pts], "residuals": [float(x) for x in res]}, replay=[desc])
+
+
+def axis_lines_stream(ctx, n):
+    """a sphere against a LineCollection whose lines run in the three coordinate directions (each line matrix has a different
+    vanishing row): the secants return their known points, position by position"""
+    import geometer as g
+    rng = ctx.rng
+    for k in range(n):
+        c = np.array([float(rng.randint(-2, 2)) for _ in range(3)])
+        r0 = float(rng.choice([2, 3, 5]))
+        S = g.Sphere(g.Point(*c), r0)
+        lines, exp = [], []
+        for ax in rng.sample([0, 1, 2], 3):
+            d = np.zeros(3); d[ax] = 1.0
+            off = np.zeros(3)
+            if rng.random() < 0.5:
+                off[(ax + 1) % 3] = 0.6 * r0 if r0 == 5 else 0.0
+            p, q = c + off - np.sqrt(r0 ** 2 - off @ off) * d, c + off + np.sqrt(r0 ** 2 - off @ off) * d
+            lines.append(g.Line(g.Point(*p), g.Point(*q)))
+            exp.append((p, q))
+        LC = g.LineCollection(np.stack([np.asarray(l.array) for l in lines]))
+        desc = f"sphere centre {c.tolist()} radius {r0} against axis-parallel secants {[[p.tolist(), q.tolist()] for p, q in exp]}"
+        ctx.case(desc)
+        ctx.count("axis-lines")
+        r = call_impl(lambda: S.intersect(LC))
+        if r[0] != "ok":
+            ctx.disagree(f"C14:axis-lines:error:{r[1]}", desc, "two points per line", r[1:3], replay=[desc])
+            continue
+        ok = len(r[1]) == 2
+        if ok:
+            for i, (p, q) in enumerate(exp):
+                got = [np.asarray(x.array)[i] for x in r[1]]
+                good, why = match_points([g.Point(v) for v in got], [np.append(p, 1.0), np.append(q, 1.0)], 1e-7)
+                ok = ok and good
+        if not ok:
+            ctx.disagree("C14:axis-lines:value", desc, "the two known points per line", [np.round(np.asarray(x.array), 6).tolist() for x in r[1]], replay=[desc])
+
+
 def special_stream(ctx, n):
     """circles, spheres, cones, cylinders; degenerate quadrics (pairs of lines / planes); collections"""
     import geometer as g
@@ -419,6 +483,10 @@ def grid_stream(ctx, n):
 
 
 def correspondence(ctx):
+    complex_symmetric_stream(ctx, ctx.budget(40, 400))
+    axis_lines_stream(ctx, ctx.budget(25, 250))
+    from props import c07
+    c07.dual_quadric_stream(ctx, ctx.budget(30, 300), prefix="C14")
     grid_stream(ctx, ctx.budget(6, 60))
     corpus_stream(ctx)
     intersect_stream(ctx, ctx.budget(300, 5000))
